@@ -38,6 +38,8 @@ Definition corr (k : case) : bool :=
 
 Definition prop (k : case) : bool :=
   match k with
-  | CParse _ _ => true
+  (* the -maxwarn value grammar: [maxwarn] is proved to be exactly the three documented forms (a number, a type name,
+     type:number with the number kept as written, negative included) and to reject everything else *)
+  | CParse v impl => parsed_eqb (maxwarn v) impl
   | CCount c _ ip out => holds_on c ip out
   end.
